@@ -13,6 +13,7 @@ import time
 
 VERIF = os.path.dirname(os.path.dirname(os.path.abspath(__file__)))
 REPO = os.environ.get("VERIF_REPO", "/repo")
+OUT = os.environ.get("VERIF_OUT", VERIF)      # evidence/ and replay/ go here (seed runs redirect them)
 SPEC = os.path.join(VERIF, "spec")
 WORKROOT = os.path.join(VERIF, ".work")
 TLA_CP = "/opt/veriftools/tla/tla2tools.jar:/opt/veriftools/tla/CommunityModules-deps.jar"
